@@ -118,17 +118,17 @@ LIFE_ALL_KINDS = '{"raw", "int", "plain", "sparse", "rl"}'
 
 
 def stage_life(chk, bins, label, own, ops=LIFE_ALL_OPS, kinds=LIFE_ALL_KINDS, initkinds='{"raw", "int"}', intwidths="{1, 3, 30}", maxlen=3, scales=(1, 3, 64, 65),
-               big_scales=(), big_stride=7, walks=0, walk_depth=12, variant="dbg-native"):
+               big_scales=(), big_stride=7, walks=0, walk_depth=12, variant="dbg-native", memory=1):
     """Cover of every (object state, class of the previous call, call) of the lifecycle machine, replayed at every scale;
     `own` lists the step classes this property answers for (a disagreement at another step belongs to another property's check)."""
     if not getattr(chk, "_tmpdir", None):
         chk.scratch_tmpdir()
     if not chk.thorough and intwidths == "{1, 3, 30}":
         intwidths = "{1, 30}"
-    consts = {"MaxLen": maxlen, "Ops": ops, "Kinds": kinds, "InitKinds": initkinds, "IntWidths": intwidths, "Memory": 1, "MaxDepth": 99}
+    consts = {"MaxLen": maxlen, "Ops": ops, "Kinds": kinds, "InitKinds": initkinds, "IntWidths": intwidths, "Memory": memory, "MaxDepth": 99}
     path, res = vlib.generate_cases(chk.work, "GenLife_" + label, "GenLife", cfg_consts(consts) + LIFE_TAIL, timeout=900)
-    chk.add_tlc(res, "GenLife %s: cover of every (reachable (kind, bits <= %d, supports), class of the previous call, call) of the lifecycle machine "
-                     "(invariants LifeOK, Content checked)" % (label, maxlen), {"behaviours": len(res.replay_lines)})
+    chk.add_tlc(res, "GenLife %s: cover of every (reachable (kind, bits <= %d, supports), class of the previous %s, call) of the lifecycle machine "
+                     "(invariants LifeOK, Content checked)" % (label, maxlen, "call" if memory == 1 else "two calls"), {"behaviours": len(res.replay_lines)})
     st = "replay lifecycle behaviours (%s) at scales %s on %s: after every call kind, bits, supports, == / same bytes / same answers as the object built directly from the state" % (label, list(scales), variant)
     out = chk.run_harness(bins[variant], ["replay", "--kind", "life", "--cases", path, "--scales", ",".join(str(k) for k in scales), "--own", ",".join(own)], st)
     if out:
@@ -143,7 +143,8 @@ def stage_life(chk, bins, label, own, ops=LIFE_ALL_OPS, kinds=LIFE_ALL_KINDS, in
         wpath, wres = vlib.generate_cases(chk.work, "GenLife_walk_" + label, "GenLife", cfg_consts(consts) + LIFE_TAIL, simulate="num=%d" % walks, seed=chk.seed, timeout=900)
         chk.add_tlc(wres, "GenLife %s: %d random walks of depth %d" % (label, walks, walk_depth), {"behaviours": len(wres.replay_lines)})
         st = "replay lifecycle random walks (%s, depth %d) at scales %s" % (label, walk_depth, list(scales))
-        out = chk.run_harness(bins[variant], ["replay", "--kind", "life", "--cases", wpath, "--scales", ",".join(str(k) for k in scales), "--own", ",".join(own), "--minsteps", str(walk_depth)], st)
+        # (TLC prints every successor of every state of a walk: all of them are replayed - prefixes of the walks with one more call)
+        out = chk.run_harness(bins[variant], ["replay", "--kind", "life", "--cases", wpath, "--scales", ",".join(str(k) for k in scales), "--own", ",".join(own), "--minsteps", str(min(4, walk_depth))], st)
         if out:
             chk.add_replay(out, st)
 
@@ -640,7 +641,8 @@ def check_C11(chk):
     stage_trace(chk, bins, "huge", "TraceBV64", extra_args=("--only", "conv"))
     # conversions at every state of the lifecycle machine: sources that were mutated, converted, given supports before
     stage_life(chk, bins, "C11", ["to:plain>plain", "to:plain>sparse", "to:plain>rl", "to:sparse>", "to:rl>"], ops='{"mut", "to", "enable"}',
-               maxlen=3 if chk.thorough else 2, scales=(1, 3, 64, 65), big_scales=(130, 1100), big_stride=5 if chk.thorough else 13)
+               maxlen=3 if chk.thorough else 2, scales=(1, 3, 64, 65) if chk.thorough else (1, 3, 65), big_scales=(130, 1100), big_stride=11 if chk.thorough else 41,
+               walks=150 if chk.thorough else 0, walk_depth=9, memory=2)      # two calls of memory: what a mutator leaves behind (stale bits, cached counts) reaches the conversion after next
     chk.cov["exhaustive"] = True
     stage_trace(chk, bins, "conv", "TraceConv", seeds=2 if chk.thorough else 1)
     return chk.finish(rule="cases = (content, initial type and builder decomposition, conversion chain of length <= 3); after every conversion the "
